@@ -46,11 +46,11 @@ SITE = dict(ghost=GHOST, modifies=INV_MOD)
 LOOP = {'inv': ['c05_inv(self)', 'self.wrapper_id >= old(self.wrapper_id)'], 'modifies': LOOP_MOD}
 
 
-def site(key, params, holes, requires=(), loops=None, returns='str', extra_mod=()):
+def site(key, params, holes, requires=(), loops=None, returns='str', extra_mod=(), extra_ens=()):
     return contract(key, params=params, returns=returns, ghost=GHOST,
                     requires=['c05_inv(self)'] + list(requires),
                     modifies=INV_MOD + list(extra_mod),
-                    ensures=['c05_inv(self)', 'self.wrapper_id >= old(self.wrapper_id)'],
+                    ensures=['c05_inv(self)', 'self.wrapper_id >= old(self.wrapper_id)'] + list(extra_ens),
                     holes=holes, loops=loops or {})
 
 
@@ -89,7 +89,9 @@ site('MatlabWrapper.wrap_class_methods',
      params={'namespace_name': 'str', 'inst_class': 'ref:InstantiatedClass', 'methods': 'list[ref:InstantiatedMethod]',
              'serialize': 'list[bool]|tuple[bool]'},
      requires=['len(serialize) >= 1'],
-     loops={0: dict(LOOP, inv=LOOP['inv'] + ['len(serialize) >= 1']), 1: dict(LOOP, inv=LOOP['inv'] + ['len(serialize) >= 1'], defines={'class_name': 'str'})},
+     loops={0: dict(LOOP, inv=LOOP['inv'] + ['len(serialize) >= 1', 'len(old(serialize)) == old(len(serialize))'], modifies=LOOP_MOD + ['list(serialize)']),
+            1: dict(LOOP, inv=LOOP['inv'] + ['len(serialize) >= 1', 'len(old(serialize)) == old(len(serialize))'], defines={'class_name': 'str'})},
+     extra_mod=['list(serialize)'], extra_ens=['len(old(serialize)) == old(len(serialize))'],
      holes=[dict(match=r'\{varargout\}\{wrapper\}\(\{num\}, this, varargin', key='num', count='siteCount',
                  set={'siteRole': "(overload.original.name, inst_class, overload, namespace_name + inst_class.name + '_' + overload.original.name, False)"})])
 
